@@ -13,7 +13,7 @@ ToChunks(S, len) ==
       n == Len(c) IN
   [i \in 1..(n + 1) |-> (IF i = n + 1 THEN len ELSE c[i]) - (IF i = 1 THEN 0 ELSE c[i - 1])]
 
-MCChunkSets == UNION {UNION {{ToChunks(S, len) : S \in kSubset(k, 1..(len - 1))} : k \in 0..MaxCuts} : len \in Lens}
+MCChunkSets == UNION {UNION {{ToChunks(S, len) : S \in kSubset(k, 1..(len - 1))} : k \in 0..(IF MaxCuts < len - 1 THEN MaxCuts ELSE len - 1)} : len \in Lens}
 
 Dump == ("GEN_OUT" \in DOMAIN IOEnv) =>
           CSVWrite("%1$s", <<ToJson([chunks |-> chunks, mode |-> mode, path |-> path,
